@@ -107,18 +107,31 @@ def site_kind(c):
     return hq.last(c)
 
 
-_OVF_ADD = re.compile(r"^Overflow\(Add, (?:move|copy) _(\d+), const (\d+)_usize\)$")
+_OVF_ADD = re.compile(r"^Overflow\(Add, (?:move|copy) _(\d+), (?:(?:move|copy) _(\d+)|const (\d+)_usize)\)$")
+_ADD_RV = re.compile(r"^AddWithOverflow\((?:move|copy) _(\d+), (?:(?:move|copy) _(\d+)|const (\d+)_usize)\)$")
+_FIELD0 = re.compile(r"^(?:move|copy) \(_(\d+)\.0: usize\)$")
 _LEN_CALLS = ("std::vec::Vec::<T, A>::len", "core::slice::<impl [T]>::len", "std::slice::<impl [T]>::len")
 LEN_PLUS_CONST = []   # sites discharged structurally in the last collect_sites run: (function, file, line)
 
 
-def _sized_element(fx, gargs):
-    """the first generic argument of the len() call names a type of this crate that has a field or more than one variant (so it is not zero-sized:
-    a Vec / slice of it holds at most isize::MAX elements)"""
+def _elem_units(fx, gargs):
+    """how large a length of a Vec / slice of this element type can be, in units of isize::MAX / 8: 1 when an element takes at least 8 bytes
+    (it holds a String / Vec / Box / usize), 8 when it takes at least one byte, None when it may be zero-sized (then a length is unbounded)"""
     ty = (gargs or "").strip("[]").split(",")[0].strip()
     if not ty or ty.startswith(("(", "[", "&")):
+        return None
+    if _wide(fx, ty, 0):
+        return 1
+    return 8 if _sized(fx, ty, 0) else None
+
+
+def _wide(fx, ty, depth):
+    if ty in ("std::string::String", "usize", "isize", "u64", "i64") or ty.startswith(("std::vec::Vec<", "std::boxed::Box<", "std::string::String")):
+        return True
+    a = fx.adts.get(ty)
+    if a is None or depth > 4:
         return False
-    return _sized(fx, ty, 0)
+    return any(_wide(fx, f_.get("ty", ""), depth + 1) for v in a.get("variants", []) for f_ in v.get("fields", [])) and len(a.get("variants", [])) == 1
 
 
 def _sized(fx, ty, depth):
@@ -131,20 +144,45 @@ def _sized(fx, ty, depth):
     return len(vs) > 1 or any(_sized(fx, f_.get("ty", ""), depth + 1) for v in vs for f_ in v.get("fields", []))
 
 
-def _len_plus_const(fx, m, bl):
-    """`xs.len() + K` with xs a Vec / slice of a non-zero-sized element type and K a small literal: the length is at most isize::MAX, the sum
-    cannot leave usize"""
-    t = bl["term"]
-    mm = _OVF_ADD.match(t.get("msg", ""))
-    if not mm or int(mm.group(2)) > 2 ** 31:
-        return False
-    loc = int(mm.group(1))
+def _units(fx, m, loc, depth=0):
+    """an upper bound of the value of local `loc` in units of isize::MAX / 8 when it is a length, or a sum of lengths and small literals"""
+    if depth > 6:
+        return None
     defs = [b2["term"] for b2 in m["blocks"] if b2["term"].get("t") == "Call" and b2["term"].get("dst") == loc]
     assigns = [st for b2 in m["blocks"] for st in b2.get("stmts", []) if st.get("dst") == loc]
-    if len(defs) != 1 or assigns:
+    if len(defs) == 1 and not assigns:
+        c = defs[0]
+        if (c.get("callee_res") or c.get("callee")) in _LEN_CALLS:
+            return _elem_units(fx, c.get("gargs"))
+        return None
+    if len(assigns) == 1 and not defs:
+        f0 = _FIELD0.match(assigns[0].get("rv", ""))
+        if f0:
+            src = [st for b2 in m["blocks"] for st in b2.get("stmts", []) if st.get("dst") == int(f0.group(1))]
+            if len(src) == 1:
+                am = _ADD_RV.match(src[0].get("rv", ""))
+                if am:
+                    return _sum_units(fx, m, am, depth + 1)
+    return None
+
+
+def _sum_units(fx, m, mm, depth=0):
+    a = _units(fx, m, int(mm.group(1)), depth)
+    if mm.group(2) is not None:
+        b = _units(fx, m, int(mm.group(2)), depth)
+    else:
+        b = 1 if int(mm.group(3)) <= 2 ** 20 else None
+    return None if a is None or b is None else a + b
+
+
+def _len_plus_const(fx, m, bl):
+    """`xs.len() + K`, `xs.len() + ys.len() + ..`: a Vec / slice of elements of s bytes holds at most isize::MAX / s of them, so a sum of lengths
+    and small literals that stays below 16 units of isize::MAX / 8 (= 2 * isize::MAX < usize::MAX) cannot leave usize"""
+    mm = _OVF_ADD.match(bl["term"].get("msg", ""))
+    if not mm:
         return False
-    c = defs[0]
-    return (c.get("callee_res") or c.get("callee")) in _LEN_CALLS and _sized_element(fx, c.get("gargs"))
+    u = _sum_units(fx, m, mm)
+    return u is not None and u <= 16
 
 
 def collect_sites(fx, cg):
@@ -255,7 +293,7 @@ def rule_sites(ctx):
     ctx.count("roots", n_roots)
     ctx.floor("PANIC-TAB", "panic_sites", sum(sites.values()), 20)  # guard that the collector works; fewer sites is an improvement
     for owner, f_, l_ in LEN_PLUS_CONST:
-        ctx.ok("PANIC-TAB", "len-plus-const:%s" % owner, "%s:%s" % (f_, l_), "`xs.len() + K` on a Vec / slice of a sized element type and a small literal K: a length is at most isize::MAX, the sum stays inside usize", nontrivial=False)
+        ctx.ok("PANIC-TAB", "len-plus-const:%s" % owner, "%s:%s" % (f_, l_), "a sum of Vec / slice lengths (sized element types) and small literals: a length is at most isize::MAX / element size, the sum stays inside usize", nontrivial=False)
     # sites that left their listed function (helper extraction, code motion inside one file) leave slack for unlisted sites of the same
     # kind in the same file; a site that is new to the file exceeds the slack and is reported
     files = {b["def_path"]: b["file"] for b in fx.body_list}
